@@ -1766,28 +1766,8 @@ impl<Octs: AsRef<[u8]> + ?Sized> fmt::Display for DohPath<Octs> {
             f.write_str("dohpath")
         } else {
             f.write_str("dohpath=")?;
-            let mut s = self.as_slice();
-
-            // XXX Should this be moved to base::utils?
-            while !s.is_empty() {
-                match str::from_utf8(s) {
-                    Ok(s) => return f.write_str(s),
-                    Err(err) => {
-                        let end = err.valid_up_to();
-                        if end > 0 {
-                            f.write_str(unsafe {
-                                str::from_utf8_unchecked(&s[..end])
-                            })?;
-                        }
-                        f.write_str("\u{FFFD}")?;
-                        match err.error_len() {
-                            Some(len) => {
-                                s = &s[end + len..];
-                            }
-                            None => break,
-                        }
-                    }
-                }
+            for &ch in self.as_slice() {
+                Symbol::from_octet(ch).fmt(f)?;
             }
             Ok(())
         }
